@@ -29,6 +29,26 @@ is never touched) and the checks that exited 1 with a `VIOLATION` line were reco
 
 %d changes; %d are reported by the check of the property they were written against, %d by at least one check.
 
+The table shows the final state. The first evaluation of each batch missed some changes; what each miss taught and what
+was strengthened (never by loosening a check):
+
+| missed at first | why | strengthening |
+|---|---|---|
+| C02-1 (V9 set with length < 4 advances the cursor by `length`) | the framing alphabet had such a set only in the middle of a packet, where both readings end in an error | `PktV9_ShortLast`, `PktIx_ShortSet` in `MC_Framing` |
+| C06-2 (a rejected IPFIX template record still evicts the other kind) | no rejected template record in any driver | three rejected-record packets in `MC_Cache` (token: `Nop`) |
+| C01-2 (negative 3-byte signed value panics on re-export) | field 434 is 1 of 600 types | kind-uniform choice of field types (every value kind gets its share) |
+| C11-2, C11-1 (V9 length rounded up to 4; trailing packet < 24 bytes dropped) | the chain round demanded that the *chained* parser had consumed everything; no header-only packets in sequences | the one-packet-per-call parser certifies the antecedent; header-only IPFIX / V9 packets in the sequences |
+| C03-1 (cut V7 accepted with fewer records) | reported under C02/C14 only | C03's last sentence attributed in `Unexplained` |
+| C09-2, C16-4 (trailing NULs trimmed) | V9 has two string types and random strings rarely end in NUL | NUL-padded text values |
+| C09-1, C10-4 (options lengths recomputed; padding zeroed) | accepted-garbage shapes were not fed to C09/C10 | `hostile` driver feeds C09/C10; options templates with lengths that are not multiples of 4 |
+| C09-3, C04-3 (re-sent options template dropped from the result; refresh shortcut skips new records) | templates were never re-sent verbatim; export not judged when the structure was unexplained | template refresh (alone, and mixed with a new definition used in the same packet); `ExportBasic` judges the export from the observed accounting; `MC_Cache` vectors feed C04/C05/C09/C10 |
+| C04-4 (V9 type >= 0x8000 looked up by its low 15 bits) | the type assignment is an input of C04 | types >= 0x8000 in the drivers; `V9HighTypeFindings` (no registry knows such a type: it must be opaque) |
+| C10-3 (redefined IPFIX template keeps the old definition) | unexplained structure => only the cache envelope was applied | on a conformant buffer the caches must equal the reference's even when the structure is unexplained |
+| C13-3 (flat view empty when one packet is an error) | `flat` was only used on clean buffers | `flat` on mutated buffers |
+| C15-2 (options-template cache cloned per template flowset) | no large cache in the scale driver | large-cache shapes (1 200 templates, then 1 200 small template sets) |
+| C16-1 (cache bounded at 1 024 with arbitrary eviction) | at most 16 template ids per history | `many_templates_session` (1 100 ids, twin parsers, 25 ids queried) |
+| C07-4 (error arm drops the packets decoded before it) | reported under C02/C03/C12/C14 only | C07's "earlier packets are still reported" attributed |
+
 | change | what it does | what it needs to manifest | confirmed | checks that report a VIOLATION | own property's check |
 |---|---|---|---|---|---|
 %s
